@@ -1,6 +1,7 @@
 # C07 — Bounded oscillators stay inside their documented range
 from props.util import *
 
+aux_big = True   # also run the auxiliary big-period family (periods 2500 / 4100, two ring wraps) through the bit-exact tie
 rule = ("RSI, FAST (scalars and bars with low <= close <= high), SLOW, MFI in [0,100] and ER in [0,1], slack 1e-9 (MFI: 100*tau(t)*c, claimed for "
         "c <= 1000), at every step whose reference denominator is non-zero: regimes trending / oscillating / gapping / nearly flat / widely "
         "varying volume / periodic, periods 1..8 and sampled to 512, 60..2000 steps; all runs also compared bit-exactly with the float model. "
